@@ -7,6 +7,9 @@ import VerifModel.Model.NcAssemble
         dims  = name:size,…            (`-` = none)
         vars  = name~dtype~dim*dim…~cells|…      cells comma separated, `m` = masked, `-` = no cells
         attrs = key=value;…            keys long_name standard_name units x0 x1 (`-` = none; blanks as `_`)
+    ncdata <dims> <vars> <attrs>       the same file under verif.data.Data (one input, no options) →
+                                       T=times;L=leadtimes;X=location ids;obs=vec|ERR;fcst=vec|ERR  (the verified
+                                       dimensions and get_scores(field, 0) flattened), or ERR (no valid time / …)
     text2nc <dataset>                  canonical dataset line D → canonical line of the file text2nc.py
                                        writes for D, read back (r32 = i32 = id: float32-representable data)
     detect <isNc> <validNetcdf> <validComps> <validText>   (0/1)  → netcdf | comps | text | ERR
@@ -184,6 +187,20 @@ def runNc (V : NcVars) : String :=
     | .error _ => "ERR assemble"
   | _ => "ERR"
 
+def showScores (D : DataS) (name : String) : String :=
+  match D.getScores { fields := [name], input := 0, sel := .all } with
+  | .ok [v] => showVec v
+  | _ => "ERR"
+
+def runNcData (V : NcVars) : String :=
+  match detectNc V false with
+  | .ok .netcdf =>
+    match ncData V with
+    | .ok D =>
+      s!"T={showVec D.times};L={showVec D.leads};X={showVec (D.locs.map (·.id))};obs={showScores D "obs"};fcst={showScores D "fcst"}"
+    | .error _ => "ERR"
+  | _ => "ERR"
+
 def bool? (s : String) : Option Bool :=
   if s == "1" then some true else if s == "0" then some false else none
 
@@ -192,6 +209,7 @@ def idRounding : Rounding := ⟨id, id⟩
 def handle (args : List String) : Option String :=
   match args with
   | ["ncvars", dims, vars, attrs] => (parseNcVars? dims vars attrs).map runNc
+  | ["ncdata", dims, vars, attrs] => (parseNcVars? dims vars attrs).map runNcData
   | ["text2nc", d] => (parseDataset? d).map fun D => runNc (text2nc idRounding D)
   | ["detect", a, b, c, d] => do
       match detect (← bool? a) (← bool? b) (← bool? c) (← bool? d) with
